@@ -22,6 +22,14 @@ var allStatuses = [...]types.AuctionStatus{
 // pickSpec enumerates the concrete shape of one auction.
 func pickSpec(prefix string, id uint64) aSpec {
 	sp := aSpec{id: id, auctioneer: 0, nUsers: nd.Param("users", 2), allowAll: true}
+	// narrow variants (parameter focus): an open auction with exactly two bids of one bidder —
+	// the shape in which per-bidder accumulation over several bids shows (1 = fixed price, 2 = batch)
+	if f := nd.Param("focus", 0); f > 0 {
+		sp.nUsers, sp.nBids, sp.nEnd, sp.status = 1, 2, 1, types.AuctionStatusStarted
+		sp.batch = f == 2
+		sp.nSched = nd.Pick(prefix+"nSched", 2)
+		return sp
+	}
 	sp.batch = nd.Pick(prefix+"batch", 2) == 1
 	sp.status = allStatuses[nd.Pick(prefix+"status", 5)]
 	maxSched := nd.Param("maxSched", 2)
@@ -328,6 +336,8 @@ func H_Block() {
 			nd.Assert("C13.settles-when-rule-says", nd.Implies(nd.And(hasRounds, mustSettle), settled))
 		}
 	}
+	// ---- RI is preserved by the block (inductive step) ----
+	assertRI(e, 0, "RI.block")
 }
 
 func getParams(e *env.Env) types.Params {
